@@ -143,7 +143,7 @@ UNARY = {
     "tidyup": lambda q: q.copy().tidyup(), "tidyup_coarse": lambda q: _tidyup_coarse(q), "proj_col": None, "ptrace": None,
     "spre": None, "spost": None, "to_super": None, "liouvillian": None, "dissipator": None,
     "evo_const": None, "evo_td": None, "permute": None, "transform": None, "contract": None,
-    "sesolve_prop": None, "mesolve_dm": None, "propagator": None, "steadystate": None,
+    "sesolve_prop": None, "mesolve_dm": None, "mesolve_any_h": None, "propagator": None, "steadystate": None,
     "to_choi": None, "to_chi": None, "to_super_rt": None,
     "evo_complex_coeff": None, "transform_kets": None, "transform_matrix": None, "solver_reuse_me": None, "solver_reuse_se": None,
     "tensor_swap_left": None, "tensor_swap_right": None, "tensor_swap_both": None, "tensor_swap_cross": None,
@@ -234,7 +234,13 @@ def apply_op(name, args, rng):
         out = ev(2.0) if rng.random() < 0.7 else (ev + qutip.QobjEvo([[big, lambda t, z=z: np.conj(z) * t]]))(0.5)
         # a sum of scaled operators has no rounding to speak of: here the library's own predicate (absolute tolerance on
         # the entries) is the definition, also for large entries where the history oracle compares relatively
-        if out._isherm is not None:
+        # ... provided the operands themselves are Hermitian (or not) by their entries, not merely within the tolerance:
+        # an operand that is Hermitian up to 1e-16 and scaled by 1e7 is a tolerance artefact of the scaling, not of the sum
+        def _exact(x_):
+            xm = x_.full()
+            d_ = float(np.abs(xm - xm.conj().T).max())
+            return d_ == 0 or d_ > 1e-9 * (1 + float(np.abs(xm).max()))
+        if out._isherm is not None and _exact(q) and _exact(big):
             am = out.full()
             dev = float(np.abs(am - am.conj().T).max())
             fresh = bool(qutip.Qobj(am.copy(), dims=out.dims).isherm)
@@ -350,6 +356,21 @@ def apply_op(name, args, rng):
             return q.copy()
         H = (q + q.dag()) * 0.5
         return qutip.mesolve(H, qutip.fock_dm(2, 0), [0, 0.5], c_ops=[qutip.destroy(2)], options={"progress_bar": ""}).states[-1]
+    if name == "mesolve_any_h":
+        # the operator itself (Hermitian or not) as the Hamiltonian of a master equation started from a density matrix
+        # whose flag is known; and a user's superoperator as the generator
+        if q.dims != [[2], [2]]:
+            return q.copy()
+        r0 = qutip.fock_dm(2, 0) * 0.5 + qutip.fock_dm(2, 1) * 0.5 + 0.2 * qutip.sigmax()
+        r0.isherm
+        if rng.random() < 0.5:
+            out_ = qutip.mesolve(q, r0, [0, 0.5], c_ops=[qutip.destroy(2)], options={"progress_bar": ""}).states[-1]
+        else:
+            out_ = qutip.mesolve(qutip.spre(q), r0, [0, 0.5], options={"progress_bar": ""}).states[-1]
+        big_ = float(np.abs(out_.full()).max())
+        if not np.isfinite(big_) or big_ > 50:
+            return q.copy()       # a growing evolution: entries far from order one only exercise the tolerances
+        return out_
     if name == "propagator":
         if q.dims != [[2], [2]]:
             return q.copy()
